@@ -24,6 +24,7 @@ mod blocking;
 mod isolate;
 mod oracle16;
 mod scen;
+mod solo;
 mod world;
 
 pub(crate) type BoxedResp = actix_web::dev::ServiceResponse<actix_web::body::BoxBody>;
